@@ -1073,7 +1073,7 @@ impl World {
             }
             // 2. timeout
             let to = self.conns[k].c.poll_timeout();
-            let dl = to.map(|t| (t.saturating_duration_since(self.epoch).as_nanos() as u64).div_ceil(1000));
+            let dl = to.map(|t| t.saturating_duration_since(self.epoch).as_nanos().div_ceil(1000).min(u64::MAX as u128 / 4) as u64);
             match (dl, self.conns[k].deadline) {
                 (None, None) => {}
                 (None, _) => {
